@@ -883,3 +883,144 @@ func (f *Fn) nodeHasCall(n ast.Node, keys ...string) *ast.CallExpr {
 	}
 	return nil
 }
+
+// edgeAtoms returns the atoms implied on successor edge i of block b (nil when b does not
+// end in a condition).
+func (f *Fn) edgeAtoms(b *cfg.Block, i int) []atom {
+	f.CFG()
+	if len(b.Succs) != 2 || len(b.Nodes) == 0 {
+		return nil
+	}
+	cond, ok := b.Nodes[len(b.Nodes)-1].(ast.Expr)
+	if !ok {
+		return nil
+	}
+	truth := i == 0
+	if tag := f.caseOf[cond]; tag != nil {
+		return []atom{{e: ast.Unparen(cond), tag: tag, truth: truth}}
+	}
+	var ats []atom
+	collectAtoms(cond, truth, &ats)
+	return ats
+}
+
+// defNodes lists the CFG nodes of f (not of nested literals) that assign local variable v.
+func (f *Fn) defNodes(v *types.Var) []ast.Node {
+	var out []ast.Node
+	for _, b := range f.CFG().Blocks {
+		for _, n := range b.Nodes {
+			switch x := n.(type) {
+			case *ast.AssignStmt:
+				for _, l := range x.Lhs {
+					if f.varOf(l) == v {
+						out = append(out, n)
+					}
+				}
+			case *ast.ValueSpec:
+				for _, nm := range x.Names {
+					if f.Info.Defs[nm] == types.Object(v) {
+						out = append(out, n)
+					}
+				}
+			case *ast.IncDecStmt:
+				if f.varOf(x.X) == v {
+					out = append(out, n)
+				}
+			}
+		}
+	}
+	return out
+}
+
+// CutFromDefs is the edge-cut form of "use of v is guarded": for every definition of v in
+// f that isBad (by the provenance of its right-hand side), `use` must be unreachable from
+// that definition once (a) other definitions of v and (b) the edges on which passAtom
+// holds are removed. It returns the offending definition, or nil.
+// ok=false means v is not defined in f's own CFG (captured variable): caller falls back.
+func (f *Fn) CutFromDefs(use ast.Node, v *types.Var, isBad func(prov string) bool, passAtom func(at atom) bool, copyOK ...func(def ast.Node, rhs ast.Expr) (decided, ok bool)) (bad ast.Node, ok bool) {
+	defs := f.defNodes(v)
+	if len(defs) == 0 {
+		return nil, false
+	}
+	isDef := map[ast.Node]bool{}
+	for _, d := range defs {
+		isDef[d] = true
+	}
+	for _, d := range defs {
+		var rhsProv []string
+		switch x := d.(type) {
+		case *ast.AssignStmt:
+			if len(x.Rhs) == 1 && len(x.Lhs) > 1 {
+				for i, l := range x.Lhs {
+					if f.varOf(l) == v {
+						rhsProv = append(rhsProv, fmt.Sprintf("%s#%d", f.Prov(x.Rhs[0]), i))
+					}
+				}
+			} else {
+				for i, l := range x.Lhs {
+					if f.varOf(l) == v && i < len(x.Rhs) {
+						rhsProv = append(rhsProv, f.Prov(x.Rhs[i]))
+					}
+				}
+			}
+		case *ast.ValueSpec:
+			for i, nm := range x.Names {
+				if f.Info.Defs[nm] == types.Object(v) {
+					if len(x.Values) == 1 && len(x.Names) > 1 {
+						rhsProv = append(rhsProv, fmt.Sprintf("%s#%d", f.Prov(x.Values[0]), i))
+					} else if i < len(x.Values) {
+						rhsProv = append(rhsProv, f.Prov(x.Values[i]))
+					} else {
+						rhsProv = append(rhsProv, "zero")
+					}
+				}
+			}
+		default:
+			rhsProv = append(rhsProv, "?")
+		}
+		badDef := false
+		if as, isAs := d.(*ast.AssignStmt); isAs && len(copyOK) > 0 && len(as.Lhs) == len(as.Rhs) {
+			// a plain copy of another local: decided by the state of that local at the copy
+			decidedAll := true
+			for i, l := range as.Lhs {
+				if f.varOf(l) != v {
+					continue
+				}
+				if dec, ok := copyOK[0](d, as.Rhs[i]); dec {
+					if !ok {
+						badDef = true
+					}
+				} else {
+					decidedAll = false
+				}
+			}
+			if decidedAll {
+				rhsProv = nil
+			}
+		}
+		for _, p := range rhsProv {
+			for _, alt := range strings.Split(p, "|") {
+				if isBad(alt) {
+					badDef = true
+				}
+			}
+		}
+		if !badDef {
+			continue
+		}
+		reached, _ := f.Reach(d, func(n ast.Node) bool { return isDef[n] }, func(b *cfg.Block, si int) bool {
+			for _, at := range f.edgeAtoms(b, si) {
+				if passAtom(at) {
+					return true
+				}
+			}
+			return false
+		})
+		for _, n := range reached {
+			if !isDef[n] && containsNode(n, use) {
+				return d, true
+			}
+		}
+	}
+	return nil, true
+}
